@@ -2,7 +2,7 @@
 REG_DRAFT = dict(
     engine='E2-bfs',
     technique='explicit-state breadth-first search over request histories of the real JSON-session handler, canonical-state deduplication, differential cross-check of merged states',
-    text="Alphabet of 23 requests (12 evaluations incl. definitions/failing calls/a failing test, 9 REPL commands :skip :replace :abort :resume :forget :forget_local :test :type :locals, one eval_up_to, one malformed line). BFS over all histories of depth <=3 (quick) / <=4 (thorough), deduplicated by canon(Env); every transition is one fresh session executed by handle_request_in_worker. Oracle per request: exactly one non-printed response, no panic escapes, and one more request (`1 + 2`) is answered by exactly one response. Violations are confirmed on `garden reftest-json-session` and on a real `garden json` process (Content-Length framing, exit status 101 / missing responses).",
+    text="Alphabet of 23 requests (12 evaluations incl. definitions/failing calls/a failing test, 9 REPL commands :skip :replace :abort :resume :forget :forget_local :test :type :locals, one eval_up_to, one malformed line). BFS over all histories of depth <=3 (quick) / <=5 (thorough), deduplicated by canon(Env); every transition is one fresh session executed by handle_request_in_worker. Oracle per request: exactly one non-printed response, no panic escapes, and one more request (`1 + 2`) is answered by exactly one response. Violations are confirmed on `garden reftest-json-session` and on a real `garden json` process (Content-Length framing, exit status 101 / missing responses).",
     note=':quit (exits by design), :uptime (wall clock), :load (filesystem) and the `interrupt` request (C08) are outside the alphabet. State identity is canon(Env) (frames, pending expressions, value stacks, bindings, user namespace entries, tests); fields dropped by it are validated by replaying a second history for every merged state.',
     design_ref='DESIGN.md §6 C09',
 )
@@ -121,7 +121,7 @@ def norm_panic(msg):
 
 
 def run(ctx):
-    depth = 3 if ctx.quick else 4
+    depth = 3 if ctx.quick else 5
     seen_classes = {}
     viol = {}           # signature -> (history labels incl. the failing request, request lines, detail)
     counts = {"requests_checked": 0}
@@ -194,9 +194,12 @@ def run(ctx):
         raise Machinery(f"vacuous: pending-state classes seen: {sorted(seen_classes)}")
 
     # CLI confirmation: every signature, on reftest-json-session and on a real `json` process
-    for sig in sorted(viol):
+    from concurrent.futures import ThreadPoolExecutor
+    sigs = sorted(viol)
+    with ThreadPoolExecutor(max_workers=4) as ex:
+        confs = list(ex.map(lambda i: confirm_cli(ctx, viol[sigs[i]]["requests"], i), range(len(sigs))))
+    for sig, conf in zip(sigs, confs):
         d = viol[sig]
-        conf = confirm_cli(ctx, d["requests"])
         d["cli"] = conf
         if conf["reftest_exit"] == 101 or conf["json_exit"] == 101 or conf["json_missing_responses"] > 0 or conf["reftest_missing_responses"] > 0 \
                 or conf["reftest_exit"] in ("timeout",) or (isinstance(conf["reftest_exit"], int) and conf["reftest_exit"] < 0):
@@ -209,11 +212,11 @@ def run(ctx):
                       + " > h.jsonl && garden reftest-json-session h.jsonl; echo exit=$?   # exit 101 = the eval thread panicked")
         ctx.violations[sig]["count"] = d["instances"]
     ctx.sample({"history": ["let a = 1", "1 + throw(\"t\")", ":resume"], "note": "one transition = one fresh session replaying the history, then the probe `1 + 2`"})
-    some = [h for h in b.seen.values() if len(h) == depth][:2]
+    some = [h for h in b.seen.values() if len(h) == depth - 1][:2]
     for hist in some:
         ctx.sample({"history": b.labels(hist), "canon_after": b.canon_of[hist][:300]})
     ctx.assume("state identity = canon(Env) of src/verif_hooks.rs (frames: enclosing name, pending expressions with state tag, value stack, bindings per block, namespace path; "
-               "user namespace entries differing from the prelude; test names; type count). Dropped: syntax ids, vfs contents, tick counter, start time, prev_call_args, trace flag, type/method tables. "
+               "user namespace entries differing from the prelude; test names; type count; saved call arguments used by eval_up_to). Dropped: syntax ids, vfs contents, tick counter, start time, trace flag, type/method tables. "
                "Validated by replaying a second history for every merged state and comparing all 23 responses and successor canons.")
     return (f"BFS over histories of <= {depth} requests from a 23-request alphabet, one state per distinct canon(Env); a transition is non-trivial by construction "
             "(it executes the real handler on the replayed history); `nontrivial` counts distinct canonical states. Oracle: exactly one non-printed response per request, "
@@ -246,10 +249,10 @@ def non_output(values):
     return [v for v in values if isinstance(v, dict) and "kind" in v and next(iter(v["kind"])) not in OUTPUT_KINDS]
 
 
-def confirm_cli(ctx, requests):
+def confirm_cli(ctx, requests, n=0):
     """Feed the request lines to (1) `garden reftest-json-session` and (2) a real `garden json` process."""
     res = {}
-    path = ctx.tmpfile("c09/history.jsonl", "".join(r + "\n" for r in requests))
+    path = ctx.tmpfile(f"c09/history{n}.jsonl", "".join(r + "\n" for r in requests))
     rc, out, err = ctx.cli(["reftest-json-session", path], timeout=60, env=QUIET_ENV)
     got = len(non_output(count_json_values(out)))
     res["reftest_exit"] = rc
